@@ -14,7 +14,12 @@
  *   VERIF_ENT_FAIL_AT=<k>    k-th getentropy call (1-based) returns -1, errno=EIO
  *   VERIF_ENT_FAIL_FROM=<k>  every getentropy call from the k-th on fails
  *   VERIF_ENT_ERRNO=<n>      errno reported by an injected failure (default 5 = EIO)
- *   VERIF_ENT_CAP=<n>        after n getentropy calls the process _exit(97)s (logical-step bound)
+ *   VERIF_ENT_CAP=<n>        once more than n getentropy calls AND more than 16*n bytes have been requested the process
+ *                            _exit(97)s (logical-step bound; the byte clause keeps the budget in candidates the same for a
+ *                            tool that fetches its entropy in several small requests)
+ *   VERIF_ENT_POSTFAIL_DELAY=<usec>  after the first injected failure, the first later call of every thread sleeps that long
+ *                            before it is served: entropy served after a fault then provably reaches the tool long after
+ *                            the failure was reported to it (no race between a failing worker and a lucky one)
  *   VERIF_ENT_DELAY=<o>:<usec>[,<o>:<usec>...]  usleep before serving a call made by thread ordinal o
  *                            ("*" = every ordinal not listed)
  */
@@ -39,11 +44,15 @@ static unsigned char *g_hex = NULL;
 static size_t g_hexlen = 0, g_hexpos = 0;
 static long g_fail_at = 0, g_fail_from = 0, g_cap = 0, g_errno = EIO;
 static long g_seq = 0;     /* getentropy calls */
+static unsigned long long g_bytes = 0; /* bytes requested through getentropy */
 static long g_rseq = 0;    /* getrandom calls */
 static long g_delay[256];
 static long g_delay_default = 0;
 static int g_nthreads = 0;
 static __thread int t_ord = -1;
+static long g_postfail_delay = 0;
+static int g_failed = 0;          /* an injected failure has been reported */
+static __thread int t_postfail_done = 0;
 
 static int (*real_getentropy)(void *, size_t) = NULL;
 static ssize_t (*real_getrandom)(void *, size_t, unsigned int) = NULL;
@@ -91,6 +100,8 @@ static void init_locked(void) {
     if (p && atol(p) > 0) g_errno = atol(p);
     p = getenv("VERIF_ENT_CAP");
     if (p) g_cap = atol(p);
+    p = getenv("VERIF_ENT_POSTFAIL_DELAY");
+    if (p) g_postfail_delay = atol(p);
     for (int i = 0; i < 256; i++) g_delay[i] = -1;
     p = getenv("VERIF_ENT_DELAY");
     if (p) {
@@ -148,7 +159,13 @@ int getentropy(void *buffer, size_t len) {
     long delay = (ord < 256 && g_delay[ord] >= 0) ? g_delay[ord] : g_delay_default;
     int mode = g_mode;
     int fail = (g_fail_at && seq == g_fail_at) || (g_fail_from && seq >= g_fail_from);
-    int capped = g_cap && seq > g_cap;
+    g_bytes += len;
+    int capped = g_cap && seq > g_cap && g_bytes > 16ULL * (unsigned long long)g_cap;
+    if (g_failed && !fail && g_postfail_delay > 0 && !t_postfail_done) {
+        t_postfail_done = 1;
+        delay += g_postfail_delay;
+    }
+    if (fail) g_failed = 1;
     unsigned char tmp[256];
     int scripted = 0;
     if (!fail && !capped && mode != 0 && len <= 256) {
